@@ -11,6 +11,7 @@ import (
 	"sort"
 	"strings"
 	"sync"
+	"syscall"
 	"time"
 
 	"verif.local/gcsim/simapi"
@@ -23,12 +24,18 @@ type workerOutcome struct {
 	ExitCode int
 	Stderr   string
 	Crashed  *int // index of the run that was executing when the process died
+	// Killed: the process was ended by SIGKILL that the harness did not send and left
+	// no Go runtime text behind - the kernel's out-of-memory killer, an operator. That
+	// says nothing about the program under test: the run is executed again.
+	Killed   bool
 	Finished bool
+	// Next: the worker asked to be recycled; a fresh process continues from this run index
+	Next *int
 }
 
 var startConfigs sync.Map // run index -> *simapi.RunConfig of the last start marker seen
 
-func readResults(path string) (rs []*simapi.RunResult, proc map[string]any, lastStart *int, done bool) {
+func readResults(path string) (rs []*simapi.RunResult, proc map[string]any, lastStart *int, done bool, next *int) {
 	f, err := os.Open(path)
 	if err != nil {
 		return
@@ -53,6 +60,7 @@ func readResults(path string) (rs []*simapi.RunResult, proc map[string]any, last
 		case r.Done:
 			done = true
 			proc = r.Proc
+			next = r.Next
 		default:
 			delete(open, r.Index)
 			rr := r
@@ -63,6 +71,18 @@ func readResults(path string) (rs []*simapi.RunResult, proc map[string]any, last
 		lastStart = nil
 	}
 	return
+}
+
+// runWorkerR is runWorker for jobs that are simply started again, whole, when the
+// process was killed from outside (see workerOutcome.Killed).
+func runWorkerR(bin string, job *simapi.Job, scratch string, tag string, gomaxprocs int, timeout time.Duration) *workerOutcome {
+	for try := 0; ; try++ {
+		wo := runWorker(bin, job, scratch, fmt.Sprintf("%s-t%d", tag, try), gomaxprocs, timeout)
+		if !wo.Killed || try >= 2 {
+			return wo
+		}
+		time.Sleep(10 * time.Second)
+	}
 }
 
 // runWorker executes one worker process on a job.
@@ -77,7 +97,7 @@ func runWorker(bin string, job *simapi.Job, scratch string, tag string, gomaxpro
 	env := goEnv()
 	raceLog := filepath.Join(scratch, tag+".race")
 	env = append(env, "GORACE=halt_on_error=0 log_path="+raceLog+" history_size=4", "GCSIM_RACE_LOG="+raceLog,
-		fmt.Sprintf("GOMAXPROCS=%d", gomaxprocs), "GOTRACEBACK=all")
+		fmt.Sprintf("GOMAXPROCS=%d", gomaxprocs), "GOTRACEBACK=all", memLimitEnv(16))
 	cmd.Env = env
 	var stderr bytes.Buffer
 	cmd.Stderr = &stderr
@@ -100,16 +120,60 @@ func runWorker(bin string, job *simapi.Job, scratch string, tag string, gomaxpro
 		wo.ExitCode = -1
 		if ee, ok := werr.(*exec.ExitError); ok {
 			wo.ExitCode = ee.ExitCode()
+			if ws, ok := ee.Sys().(syscall.WaitStatus); ok && ws.Signaled() && ws.Signal() == syscall.SIGKILL && !goRuntimeText(wo.Stderr) {
+				wo.Killed = true
+			}
 		} else {
 			wo.Stderr += "\n" + werr.Error()
 		}
 	}
 	var last *int
-	wo.Results, wo.Proc, last, wo.Finished = readResults(job.Out)
+	wo.Results, wo.Proc, last, wo.Finished, wo.Next = readResults(job.Out)
 	if !wo.Finished {
 		wo.Crashed = last
 	}
 	return wo
+}
+
+// killedSilently: a real process of the program under test ended by SIGKILL without
+// having printed anything from the Go runtime - the out-of-memory killer's
+// signature. Real-process legs run such a command again instead of judging it.
+func killedSilently(err error, out string) bool {
+	ee, ok := err.(*exec.ExitError)
+	if !ok {
+		return false
+	}
+	ws, ok := ee.Sys().(syscall.WaitStatus)
+	return ok && ws.Signaled() && ws.Signal() == syscall.SIGKILL && !goRuntimeText(out)
+}
+
+// goRuntimeText: did a dying Go process say anything (panic, fatal error, a trace)?
+func goRuntimeText(s string) bool {
+	return strings.Contains(s, "panic:") || strings.Contains(s, "fatal error:") || strings.Contains(s, "goroutine ") || strings.Contains(s, "runtime.")
+}
+
+// memLimitEnv gives every worker a soft heap limit (GOMEMLIMIT) of its share of
+// 60% of the machine's memory, so that the collector works harder before the
+// kernel has to choose a victim.
+func memLimitEnv(nproc int) string {
+	b, err := os.ReadFile("/proc/meminfo")
+	if err != nil || nproc < 1 {
+		return "GOMEMLIMIT=3GiB"
+	}
+	var kb int64
+	for _, ln := range strings.Split(string(b), "\n") {
+		if strings.HasPrefix(ln, "MemTotal:") {
+			fmt.Sscanf(strings.TrimSpace(strings.TrimPrefix(ln, "MemTotal:")), "%d", &kb)
+		}
+	}
+	if kb <= 0 {
+		return "GOMEMLIMIT=3GiB"
+	}
+	per := kb / 1024 * 6 / 10 / int64(nproc)
+	if per < 1024 {
+		per = 1024
+	}
+	return fmt.Sprintf("GOMEMLIMIT=%dMiB", per)
 }
 
 // crashViolation turns a dead worker into a result for the run it was executing.
@@ -145,6 +209,10 @@ type batch struct {
 	WorkersN int
 	WallS    float64
 	Restarts int
+	// Recycled: worker processes that handed over to a fresh one because their heap had grown
+	Recycled int
+	// KilledFromOutside: worker processes ended by a SIGKILL that was not ours (re-executed)
+	KilledFromOutside int
 }
 
 // runBatch fans run indices [0,total) out over nproc worker processes
@@ -163,6 +231,7 @@ func runBatchRange(bin, refBin string, base simapi.Job, lo, total, nproc int, sc
 		nproc = 1
 	}
 	bt := &batch{WorkersN: nproc}
+	killed := map[int]int{}
 	var mu sync.Mutex
 	var wg sync.WaitGroup
 	for k := 0; k < nproc; k++ {
@@ -179,7 +248,7 @@ func runBatchRange(bin, refBin string, base simapi.Job, lo, total, nproc int, sc
 				rj.Mode = "ref"
 				rj.From, rj.To, rj.Stride = from, total, nproc
 				rj.RefPath = refPath
-				ro := runWorker(refBin, &rj, scratch, fmt.Sprintf("%s-w%d-ref", tag, k), 4, perWorkerTimeout)
+				ro := runWorkerR(refBin, &rj, scratch, fmt.Sprintf("%s-w%d-ref", tag, k), 4, perWorkerTimeout)
 				if !ro.Finished {
 					mu.Lock()
 					bt.Harness = append(bt.Harness, fmt.Sprintf("reference worker %d died (exit %d): %s", k, ro.ExitCode, short(ro.Stderr, 2000)))
@@ -199,6 +268,13 @@ func runBatchRange(bin, refBin string, base simapi.Job, lo, total, nproc int, sc
 					bt.Procs = append(bt.Procs, wo.Proc)
 				}
 				mu.Unlock()
+				if wo.Finished && wo.Next != nil {
+					mu.Lock()
+					bt.Recycled++
+					mu.Unlock()
+					from = *wo.Next
+					continue
+				}
 				if wo.Finished {
 					return
 				}
@@ -212,6 +288,19 @@ func runBatchRange(bin, refBin string, base simapi.Job, lo, total, nproc int, sc
 				idx := *wo.Crashed
 				mu.Lock()
 				bt.Restarts++
+				if wo.Killed {
+					killed[idx]++
+					bt.KilledFromOutside++
+					if killed[idx] <= 2 {
+						mu.Unlock()
+						from = idx // the same run again, in a fresh process
+						time.Sleep(time.Duration(5+k) * time.Second)
+						continue
+					}
+					bt.Harness = append(bt.Harness, fmt.Sprintf("run %d: the worker was killed by SIGKILL %d times without a word (out of memory?); not a verdict about the program", idx, killed[idx]))
+					mu.Unlock()
+					return
+				}
 				switch {
 				case wo.ExitCode == 75 || wo.ExitCode == 73 || strings.Contains(wo.Stderr, "worker timed out"):
 					bt.Harness = append(bt.Harness, fmt.Sprintf("run %d: harness trouble (exit %d): %s", idx, wo.ExitCode, short(wo.Stderr, 1500)))
